@@ -23,7 +23,7 @@ GRIDS = {
     'disjoint': list(range(800, 1101, 100)),
     'nonuniform': [400, 410, 450, 520, 700],
 }
-PAIRS = [('A', 'same'), ('A', 'nested'), ('A', 'partial'), ('A', 'disjoint'), ('A', 'nonuniform'), ('nonuniform', 'nested'),
+PAIRS = [('intA', 'nested'), ('intA', 'intnested'), ('A', 'same'), ('A', 'nested'), ('A', 'partial'), ('A', 'disjoint'), ('A', 'nonuniform'), ('nonuniform', 'nested'),
          ('nested', 'A'), ('partial', 'nonuniform')]
 
 
@@ -57,13 +57,22 @@ def guarded(fn):
 
 def values(name, seed):
     n = len(GRIDS[name])
+    if name.startswith('int'):
+        return np.floor(rm.generic_real((n,), seed, tag=sum(map(ord, name)) % 17, lo=1, hi=9))
     return rm.generic_real((n,), seed, tag=sum(map(ord, name)) % 17, lo=0.5, hi=2.0)
+
+
+INT_NAMES = {'intA': 'A', 'intnested': 'nested'}      # same grids, integer-valued (integer dtype) samples
+for _k, _v in INT_NAMES.items():
+    GRIDS[_k] = GRIDS[_v]
 
 
 def make(name, unit, seed, valueunit=None):
     from lentil.radiometry import Spectrum
     w = np.array(GRIDS[name], dtype=float) / TO_NM[unit]
     v = values(name, seed).copy()
+    if name in INT_NAMES:
+        v = v.astype(np.int64)
     if valueunit is not None:
         v = v * TO_NM[unit]          # same physical per-wavelength density expressed per `unit`
     return Spectrum(w, v, waveunit=unit, valueunit=valueunit)
@@ -290,7 +299,7 @@ def t_pair(arg, acc):
     tier, seed, pair, opn = arg['tier'], arg['seed'], arg['pair'], arg['op']
     for sampling in ('min', 'left', 'right', 25.0):
         for method in ('linear', 'quadratic', 'cubic'):
-            for fill in (0, 1):
+            for fill in (0, 1, 0.5):
                 acc.states += 1
                 for u1, u2 in itertools.product(UNITS, repeat=2):
                     acc.transitions += 1
@@ -325,7 +334,7 @@ def t_scalar(arg, acc):
 
 
 def run(tier, seed, acc, procs=None):
-    pairs = PAIRS if tier != 'quick' else PAIRS[:6]
+    pairs = PAIRS if tier != 'quick' else PAIRS[:8]
     tasks = [('t_pair', {'tier': tier, 'seed': seed, 'pair': list(p), 'op': o}) for p in pairs for o in OPS]
     tasks.append(('t_scalar', {'seed': seed}))
     acc.states += 1
